@@ -923,7 +923,9 @@ func (s *Store[K, V]) processSecondary() {
 			item.shard.mu.RUnlock(tk)
 			if err != nil {
 				s.secondaryCache.HandleAsyncError(err)
-				continue
+				// no continue: the policy has already dropped the entry, so it
+				// has to leave the map as well, otherwise a failing secondary
+				// cache lets the memory tier grow without bound
 			}
 			if item.reason == EVICTED {
 				item.shard.mu.Lock()
